@@ -250,8 +250,35 @@ for _m in BR_THEN_UNQUOTE:
                           data='-', selectors="marked content w = 4 characters, each selected from {'%%','3','C','<','a'}, containing '<' "
                           '(625 concrete strings enumerated by path forking); newline_to_br followed by the trailing %s entry of '
                           'DT_Var.modifiers' % _m))
+# '%'-formatting a TaintedString under CrossHair raises an internal SystemError (the symbolic wrapper is copied through
+# __reduce__, which TaintedString forbids): those templates are decided over a stated pool of tainted values, untraced
+POOL_GLUE = {'cfmt_pre', 'cfmt_10s', 'cfmt_s_unq', 'epfs_r', 'epfs_10s', 'epfs_dot1s', 'epfs_dot1s_unq', 'cfmt_s'}
+TPOOL = ['<', 'a<b', '<%3C', ' <', '=<', '<\n', '%s<', '<<<', '%3C<', '<script>', '\x00<', "'<\""]
+
+
+def make_glue_pool(name):
+    ob0 = make_glue(name)
+
+    def ob(j: int) -> bool:
+        idx = 0
+        for i in range(len(TPOOL)):
+            if j == i:
+                idx = i
+        from crosshair.tracers import NoTracing
+        with NoTracing():
+            return ob0(TPOOL[idx])
+    ob.__name__ = 'ob_gluepool_' + name
+    return ob
+
+
 for _n in GLUE:
     _src, _cls, _br, _exact, _alpha = GLUE[_n]
+    if _n in POOL_GLUE:
+        OBLIGATIONS.append(Ob('glue_' + _n, make_glue_pool(_n), ['0 <= j < %d' % len(TPOOL)], timeout=tier(120, 600),
+                              data='-', selectors='template %r (%s), tainted value from the pool %r (untraced per path)' % (_src, _cls.__name__, TPOOL),
+                              outside='tainted values outside the pool for %%-format templates',
+                              stubs='CrossHair cannot trace %-formatting of a TaintedString (internal SystemError): pool + untraced render'))
+        continue
     _pre = ['len(s) <= %d' % NG] + ([ALPHA_PRE] if _alpha or 'quote' in _src.replace('html_quote', '').replace('sql_quote', '').replace('html-quote', '').replace('sql-quote', '') else [])
     OBLIGATIONS.append(Ob('glue_' + _n, make_glue(_n), _pre, timeout=tier(120, 600),
                           data="tainted value s containing '<', len <= %d%s" % (NG, ' over alphabet' if _alpha else ', any code points'),
